@@ -179,3 +179,54 @@ func TestC06(t *testing.T) {
 		Gen: genAcceptCase, Judge: judgeAcceptCase,
 	})
 }
+
+// TestC06_OneLine sweeps every one-line program `op[.mod] [am]a[, [bm]b]` (17
+// opcodes, modifier omitted or one of 7, each mode omitted or one of 8, one or
+// two operands) under both dialects: whatever is accepted must satisfy the
+// predicate. The domain is small and finite, so it is enumerated, not sampled;
+// a failure is stored as an ordinary `accepted` case and replayed by TestC06.
+func TestC06_OneLine(t *testing.T) {
+	if hx.ReplayPath() != "" {
+		t.Skip("failures are stored as cases of the sampled sub-check")
+	}
+	if hx.Shard() != 0 {
+		t.Skip("the sweep is the same on every shard")
+	}
+	rec := hx.NewRec("C06", "oneline", "sweep of all one-line programs: 17 opcodes x (no modifier | 7 modifiers) x (A mode omitted | 8 modes) x (one operand | B mode omitted | 8 modes), operand values drawn from {0, 1, -1, 7} by position, under ICWS'88 and ICWS'94 (core 8000): whenever CompileWarrior succeeds the output must satisfy the structural predicate and, under ICWS'88, the independently written '88 table with the implied modifier. Non-trivial: accepted; distinct by (dialect, line).")
+	complete := false
+	t.Cleanup(func() { rec.Flush(complete) })
+	modes := []string{"", "#", "$", "@", "<", ">", "*", "{", "}"}
+	mods := append([]string{""}, ref.ModNames[:]...)
+	vals := []string{"0", "1", "-1", "7"}
+	k := 0
+	for _, legacy := range []bool{true, false} {
+		cfg := gen.AsmConfig{Legacy: legacy, CoreSize: 8000, Length: 100, Distance: 100, Processes: 8000}
+		for _, op := range ref.OpNames {
+			for _, mod := range mods {
+				for _, am := range modes {
+					for bi := -1; bi < len(modes); bi++ {
+						k++
+						line := strings.ToLower(op)
+						if mod != "" {
+							line += "." + strings.ToLower(mod)
+						}
+						line += " " + am + vals[k%4]
+						if bi >= 0 {
+							line += ", " + modes[bi] + vals[(k/4)%4]
+						}
+						c := acceptCase{Class: "oneline", Cfg: cfg, Text: line + "\n"}
+						var msg string
+						if pm := hx.Safely(func() { msg = judgeAcceptCase(c, rec) }); pm != "" {
+							msg = pm
+						}
+						if msg != "" {
+							hx.WriteFailure("C06", "accepted", msg, c)
+							t.Fatalf("%s", msg)
+						}
+					}
+				}
+			}
+		}
+	}
+	complete = true
+}
